@@ -1,11 +1,19 @@
 package props
 
 import (
+	"bytes"
+	"context"
 	"fmt"
 	"strings"
 	"sync/atomic"
 
+	"github.com/aws/aws-sdk-go-v2/aws"
+	kmsv2 "github.com/aws/aws-sdk-go-v2/service/kms"
+	"github.com/godaddy/asherah/go/appencryption"
+	"github.com/godaddy/asherah/go/appencryption/pkg/crypto/aead"
 	applog "github.com/godaddy/asherah/go/appencryption/pkg/log"
+	pluginv1 "github.com/godaddy/asherah/go/appencryption/plugins/aws-v1/kms"
+	pluginv2 "github.com/godaddy/asherah/go/appencryption/plugins/aws-v2/kms"
 	smlog "github.com/godaddy/asherah/go/securememory/log"
 
 	"verif/sim/refimpl"
@@ -42,19 +50,31 @@ func (capLogger) Debugf(format string, v ...interface{}) {
 
 var loggersInstalled bool
 
+// The code under test may legitimately keep random bytes across operations (a pool); what a worker
+// process has read from the simulated crypto/rand is therefore remembered across its runs, (reuse
+// of a nonce value is judged within one run only: two runs may share a DRBG seed).
+var (
+	c03Stream []byte
+	c03Known  = map[string]bool{} // chunks read in earlier runs of this process
+)
+
 func runC03(t *simrt.Tape, o Opts) Outcome {
 	if !loggersInstalled {
 		applog.SetLogger(capLogger{})
 		smlog.SetLogger(capLogger{})
 		loggersInstalled = true
 	}
-	cfg := schedCfg(t, o, false)
+	if t.Choose(5, "mode.kmsplugins") == 1 {
+		return runC03KMS(t, o)
+	}
+	cfg := schedCfg(t, o, true)
 	var w *world.World
 	var st Stats
 	s := simrt.Run(t, cfg, func(s *simrt.Sim) {
 		w = world.New(s, "C03")
 		w.ScanLeaks = true
 		s.RandLog = map[string]int{}
+		s.RandStream = c03Stream // everything this process ever read from the simulated crypto/rand
 		logSink.Store(w)
 		defer logSink.Store(nil)
 		st.Oracle = map[string]int{}
@@ -79,7 +99,51 @@ func runC03(t *simrt.Tape, o Opts) Outcome {
 		for i := 0; i < n && len(w.Viols) == 0; i++ {
 			h.step()
 		}
+		// concurrent burst: several tasks encrypt for the same partitions at once (same intermediate keys),
+		// so that nonce/data-key reuse that needs an interleaving can show
+		if len(w.Viols) == 0 && t.Choose(4, "burst") == 1 {
+			lp := h.liveProcs()
+			if len(lp) > 0 {
+				p := lp[0]
+				ntask := 2 + t.Choose(3, "burst.tasks")
+				per := 20 + t.Choose(80, "burst.per")
+				s.RearmPCT(ntask * per * 40)
+				var tasks []*simrt.Task
+				for ti := 0; ti < ntask; ti++ {
+					part := h.parts[ti%len(h.parts)]
+					tasks = append(tasks, s.Go("burst", func() {
+						se, err := w.Open(p, part)
+						if err != nil {
+							return
+						}
+						for k := 0; k < per && !s.Ending() && len(w.Viols) == 0; k++ {
+							pl := w.Payload(2)
+							rec, op := w.Encrypt(se, pl)
+							if rec != nil {
+								w.AddSensitivePayload(rec.Payload)
+								payloadFP[refimpl.FP(rec.Payload)] = true
+								auditEncrypt(w, &st, rec, op)
+							}
+						}
+						w.CloseSess(se)
+					}))
+				}
+				for _, tk := range tasks {
+					s.Join(tk)
+				}
+				w.Drain()
+			}
+		}
 		auditGlobal(w, &st, payloadFP)
+		c03Stream = s.RandStream
+		for k := range s.RandLog {
+			if len(k) == 12 {
+				c03Known[k] = true
+			}
+		}
+		if len(c03Stream) > 32<<20 {
+			c03Stream = append([]byte(nil), c03Stream[len(c03Stream)-(16<<20):]...)
+		}
 		nenc := 0
 		for _, op := range w.Ops {
 			if op.Kind == "encrypt" && op.Err == nil {
@@ -164,22 +228,23 @@ func auditEncrypt(w *world.World, st *Stats, rec *world.Rec, op *world.OpRec) {
 func auditGlobal(w *world.World, st *Stats, payloadFP map[string]bool) {
 	count(st.Oracle, "global-audit")
 	pairs := map[string]int{}
-	nonceUses := map[string]int{}
+	usedNonceOffsets := map[string]bool{}
 	for _, c := range w.AEADCalls {
 		if !c.Enc || !c.OK {
 			continue
 		}
-		// every nonce is a fresh 12-byte draw from the process's cryptographic random source
+		// every nonce is a fresh 12-byte stretch of what the process read from its cryptographic random
+		// source (single reads or bulk reads alike), and no stretch serves two encryptions
 		count(st.Oracle, "nonce-from-crypto-rand")
-		nonceUses[c.Nonce]++
-		if w.S.RandLog[c.Nonce] == 0 {
-			w.Violate("nonce-not-from-crypto-rand", "nonce-not-from-crypto-rand", "a nonce used for an encryption (op %v) was not drawn from crypto/rand: no %d-byte read of the random source produced it", opIdx(c.Op), len(c.Nonce))
+		if w.S.RandLog[c.Nonce] == 0 && !c03Known[c.Nonce] && !bytes.Contains(w.S.RandStream, []byte(c.Nonce)) {
+			w.Violate("nonce-not-from-crypto-rand", "nonce-not-from-crypto-rand", "a nonce used for an encryption (op %v) is not a stretch of the bytes this process read from crypto/rand", opIdx(c.Op))
 			return
 		}
-		if nonceUses[c.Nonce] > w.S.RandLog[c.Nonce] {
-			w.Violate("nonce-draw-reused", "nonce-draw-reused", "one draw from the random source served as nonce for two encryptions")
+		if usedNonceOffsets[c.Nonce] {
+			w.Violate("nonce-value-reused", "nonce-value-reused", "the same 12 random bytes served as nonce for two encryptions (op %v)", opIdx(c.Op))
 			return
 		}
+		usedNonceOffsets[c.Nonce] = true
 		k := c.KeyFP + "|" + c.Nonce
 		pairs[k]++
 		if pairs[k] > 1 {
@@ -253,4 +318,97 @@ func opIdx(op *world.OpRec) int {
 		return -1
 	}
 	return op.Idx
+}
+
+// runC03KMS: the AWS KMS plugins with failing regions and debug logging on: nothing they log or
+// return may contain the system key or the cloud data key in the clear.
+func runC03KMS(t *simrt.Tape, o Opts) Outcome {
+	n := 1 + t.Choose(4, "nregions")
+	pref := t.Choose(n, "preferred")
+	wm := t.Choose(1<<n, "wrapmask")
+	um := t.Choose(1<<n, "unwrapmask")
+	pair := t.Choose(4, "pair")
+	cfg := schedCfg(t, o, true)
+	var w *world.World
+	var st Stats
+	s := simrt.Run(t, cfg, func(s *simrt.Sim) {
+		w = world.New(s, "C03")
+		w.ScanLeaks = true
+		logSink.Store(w)
+		defer logSink.Store(nil)
+		st.Oracle = map[string]int{}
+		rnd := simrt.NewRand(uint64(t.Choose(1<<20, "seed")) + 29)
+		regions := c17Regions[:n]
+		arn := map[string]string{}
+		for _, r := range regions {
+			arn[r] = "arn:aws:kms:" + r + ":111122223333:key/" + r
+		}
+		var log []string
+		var handed [][]byte
+		nodes := map[string]*fakeRegion{}
+		for i, r := range regions {
+			mk := make([]byte, 32)
+			for k := range mk {
+				mk[k] = byte(i*37 + k)
+			}
+			nodes[r] = &fakeRegion{s: s, region: r, arn: arn[r], master: mk, log: &log, handed: &handed, rnd: rnd, onHand: w.AddSensitiveKey}
+			if wm>>i&1 == 1 {
+				switch t.Choose(3, "failwhat") {
+				case 0:
+					nodes[r].failGen, nodes[r].failEnc = true, true
+				case 1:
+					nodes[r].failEnc = true
+				case 2:
+					nodes[r].failGen = true
+				}
+			}
+		}
+		crypto := aead.NewAES256GCM()
+		build := func(v2 bool) (appencryption.KeyManagementService, error) {
+			if v2 {
+				return pluginv2.NewBuilder(crypto, arn).WithPreferredRegion(regions[pref]).WithAWSConfig(aws.Config{}).
+					WithKMSFactory(func(cfg aws.Config, _ ...func(*kmsv2.Options)) pluginv2.AWSClient { return fakeV2{nodes[cfg.Region]} }).Build()
+			}
+			k, err := pluginv1.NewAWS(crypto, regions[pref], arn)
+			if err != nil {
+				return nil, err
+			}
+			for i := range k.Clients {
+				k.Clients[i].KMS = fakeV1{nodes[k.Clients[i].Region]}
+			}
+			return k, nil
+		}
+		wrapper, err := build(pair&1 == 1)
+		if err != nil {
+			return
+		}
+		unwrapper, err := build(pair&2 == 2)
+		if err != nil {
+			return
+		}
+		sk := make([]byte, 32)
+		rnd.Fill(sk)
+		w.AddSensitiveKey(sk)
+		count(st.Oracle, "kms-plugin-wrap-leak-scan")
+		blob, err := wrapper.EncryptKey(context.Background(), append([]byte(nil), sk...))
+		if err == nil {
+			w.ScanEmitted("kms-envelope", blob)
+			for i, r := range regions {
+				if um>>i&1 == 1 {
+					nodes[r].failDec = true
+					nodes[r].wrongPlain = t.Choose(2, "wrongplain") == 1
+				}
+			}
+			count(st.Oracle, "kms-plugin-unwrap-leak-scan")
+			if _, derr := unwrapper.DecryptKey(context.Background(), blob); derr != nil {
+				w.ScanEmitted("kms-error", []byte(derr.Error()))
+			}
+		} else {
+			w.ScanEmitted("kms-error", []byte(err.Error()))
+		}
+		st.Nontrivial = wm != 0 || um != 0
+		st.Class = fmt.Sprintf("kmsplugins|%d/%d/%d/%d/%d", n, pref, wm, um, pair)
+		st.Sample = map[string]any{"mode": "aws-kms-plugins with debug logging", "regions": n, "wrap_failing_mask": wm, "unwrap_failing_mask": um, "log_lines": w.LogLines}
+	})
+	return finish(s, w, st, true)
 }
